@@ -49,11 +49,11 @@ def main(src, dst):
     async def one(r):
         await asyncio.sleep(r['arrival'] / 1000)
         try:
-            response = await asyncio.wait_for(engine.apply(f"app{r['app']}", request(r)), 60)
+            response = await asyncio.wait_for(engine.apply(f"app{r['app']}", request(r)), 25)
             values = [v for row in json.loads(response.payload.data) for v in row.values()]
             return ['ok', str(response.instance), values]
         except asyncio.TimeoutError:
-            return ['err', 'Timeout', 'no response within 60 s']
+            return ['err', 'Timeout', 'no response within 25 s']
         except forml.AnyError as err:
             return ['err', type(err).__name__, str(err)[:160]]
         except Exception as err:  # pylint: disable=broad-except
